@@ -301,3 +301,48 @@ pub fn knobs_oh(c: &mut Ctx, f: &ROH) {
         c.knob("oh:isolated-node");
     }
 }
+
+/// make `h` acyclic by construction with paths of VARIED length: rank the nodes by a random
+/// permutation, give every hyperedge a random threshold, keep its sources of rank <= threshold and
+/// its targets of rank > threshold.  A node can then have predecessors at different depths (joins of
+/// unequal arms, shortcuts).  Sometimes one backward connection is put back, closing a cycle that
+/// runs through such a structure.
+pub fn dagify(r: &mut Rng, h: &mut RHG) -> &'static str {
+    let nn = h.w.len();
+    let ne = h.x.len();
+    if nn == 0 || ne == 0 {
+        return "dag:empty";
+    }
+    let mut rank: Vec<usize> = (0..nn).collect();
+    r.shuffle(&mut rank);
+    let mut ss = h.s.segs();
+    let mut ts = h.t.segs();
+    for e in 0..ne {
+        let th = r.below(nn);
+        ss[e].retain(|v| rank[*v] <= th);
+        ts[e].retain(|v| rank[*v] > th);
+        if ss[e].is_empty() && r.chance(2, 3) {
+            // keep the edge connected: a source of minimal rank
+            let v = (0..nn).find(|v| rank[*v] <= th).unwrap();
+            ss[e].push(v);
+        }
+        if ts[e].is_empty() && th + 1 < nn && r.chance(2, 3) {
+            let v = (0..nn).find(|v| rank[*v] > th).unwrap();
+            ts[e].push(v);
+        }
+    }
+    let mut knob = "dag:by-rank";
+    if r.chance(1, 4) {
+        // one backward connection: target of rank <= some source's rank
+        let e = r.below(ne);
+        if let Some(&sv) = ss[e].first() {
+            if let Some(v) = (0..nn).find(|v| rank[*v] <= rank[sv]) {
+                ts[e].push(v);
+                knob = "dag:by-rank+one-back-edge";
+            }
+        }
+    }
+    h.s = RICF::from_segs(&ss, nn);
+    h.t = RICF::from_segs(&ts, nn);
+    knob
+}
